@@ -1,5 +1,6 @@
 import Ktm.RandomSeeded
 import Ktm.Random
+import Ktm.Growth
 import Ktm.Props.C11
 /-! # C06 — sampling oracles never start the same configuration twice, and give up cleanly
 
@@ -36,10 +37,37 @@ theorem exhausted_answer_random {W : Type} [DecidableEq W] (cands : Nat → List
 theorem exhausted_answer_hyperband (o : HB.O) (s' : HB.St) (bi num : Nat) :
     HB.randomIn o 0 s' bi num = (s', if o.ongoing.isEmpty then .stop else .idle) := rfl
 
-/-- partial — growth of the space during the search: `no_duplicate_start` is for a fixed space (the tried
-list holds whole assignments). After an entry is reported at `end_trial` the code re-hashes that trial only;
-that earlier trials, whose assignments lack the new entry, can no longer collide with fresh samples is
-checked by the suite (mode grow), not proved. -/
+/-- **growth of the space during the search** (tuned new entries): `end_trial` stores the values the tuner reports and
+records them again, dropping the hash recorded before. In every state reachable by any request list with arbitrary
+reported values, a freshly started trial differs from the *current* values of every stored trial, unless it is one
+of the dropped (stale) configurations … -/
+theorem fresh_differs_after_growth {W : Type} [DecidableEq W] (cands : Nat → List W) (o0 : Oracle W (Growth.SSt W))
+    (r0 : Growth.Recorded o0) (ops : List (Growth.GOp W)) (tuner c : Nat) (v : W)
+    (hnew : (create (Growth.algS cands) (Growth.grun (Growth.algS cands) (Growth.recordS true) o0 ops) tuner c).2
+              = .trial (Growth.grun (Growth.algS cands) (Growth.recordS true) o0 ops).trials.length v)
+    (hstale : v ∉ (Growth.grun (Growth.algS cands) (Growth.recordS true) o0 ops).alg.stale) :
+    ∀ (i : Nat) (t : Trial W), (Growth.grun (Growth.algS cands) (Growth.recordS true) o0 ops).trials[i]? = some t → t.vals ≠ v :=
+  Growth.fresh_differs_unless_stale true cands o0 r0 ops tuner c v hnew hstale
+
+/-- … and a stale configuration — one leaving unbound an entry of the grown space that is active under it — is never
+enumerated, hence never sampled, from the grown space -/
+theorem stale_never_sampled (hs : List GHP) (old : Env) (hnd : (names hs).Nodup) (hpf : ParentsFirst [] hs)
+    (g : GHP) (hg : g ∈ hs) (hact : active old g = true) (hunbound : old.lookup g.name = none) : old ∉ enum hs [] :=
+  Growth.stale_not_enumerated hs old hnd hpf g hg hact hunbound
+
+/-- **entries that are reported but not tuned** (`tune_new_entries = False`; defect F21, repaired): no hash is ever
+dropped, so the fresh trial differs from the current values of every stored trial unconditionally -/
+theorem fresh_differs_not_tuned {W : Type} [DecidableEq W] (cands : Nat → List W) (o0 : Oracle W (Growth.SSt W))
+    (r0 : Growth.Recorded o0) (h0 : o0.alg.stale = []) (ops : List (Growth.GOp W)) (tuner c : Nat) (v : W)
+    (hnew : (create (Growth.algS cands) (Growth.grun (Growth.algS cands) (Growth.recordS false) o0 ops) tuner c).2
+              = .trial (Growth.grun (Growth.algS cands) (Growth.recordS false) o0 ops).trials.length v) :
+    ∀ (i : Nat) (t : Trial W), (Growth.grun (Growth.algS cands) (Growth.recordS false) o0 ops).trials[i]? = some t → t.vals ≠ v :=
+  Growth.fresh_differs_not_tuned cands o0 r0 h0 ops tuner c v hnew
+
+/-- partial — what links the two halves of the tuned case is not proved: that the configuration dropped at a
+re-record really leaves an active entry of the grown space unbound (the reported values extend the started ones by the
+entries the build function declared, `Space.register`); the `sampling` suite's grow modes check the statement itself on
+the implementation (current-values monitor, started-values monitor). -/
 theorem growth_partial {W : Type} [DecidableEq W] (tried cs : List W) (v : W) (h : RandomAlg.pick tried cs = some v) :
     v ∈ cs ∧ v ∉ tried := RandomAlg.pick_spec tried cs v h
 
